@@ -94,10 +94,10 @@ def c01(repo, col):
     D.converter_lattice(repo, col)
     S.optional_zero(repo, col)
     S.rgb_split_idiom(repo, col)
-    col.floor("E-TILE", 12)
-    col.floor("E-AXIS", 45)
-    col.floor("E-DTYPE.pair", 50)
-    col.floor("E-OWN", 8)
+    col.floor("E-TILE", 6)
+    col.floor("E-AXIS", 22)
+    col.floor("E-DTYPE.pair", 25)
+    col.floor("E-OWN", 4)
 
 
 @prop("C02", "compressed_segmentation output conforms to the Neuroglancer "
@@ -121,8 +121,8 @@ def c02(repo, col):
     A.check_modules(repo, col, ["_compressed_segmentation", "chunk_encoding"])
     O.cseg_field_guard(repo, col)
     S.io_pass_through(repo, col)
-    col.floor("E-SPEC.cseg", 30)
-    col.floor("E-AXIS", 40)
+    col.floor("E-SPEC.cseg", 15)
+    col.floor("E-AXIS", 20)
 
 
 @prop("C03", "Writing then reading a chunk returns the same array for "
@@ -145,9 +145,9 @@ def c03(repo, col):
     SB.data_type_tables(repo, col)
     A.check_modules(repo, col, ["precomputed_io", "chunk_encoding", "_jpeg"])
     X.decoded_shape(repo, col)
-    col.floor("E-BOUND.validator", 12)
-    col.floor("E-ORDER", 8)
-    col.floor("E-SIB.tables", 8)
+    col.floor("E-BOUND.validator", 6)
+    col.floor("E-ORDER", 4)
+    col.floor("E-SIB.tables", 4)
 
 
 @prop("C04", "Sharded output is readable by any reader that follows the "
@@ -170,8 +170,8 @@ def c04(repo, col):
     SP.routing_bits(repo, col)
     O.shard_index_last(repo, col)
     S.minishard_encode_before_park(repo, col)
-    col.floor("E-SPEC.sharded", 18)
-    col.floor("E-ORDER.index-last", 5)
+    col.floor("E-SPEC.sharded", 9)
+    col.floor("E-ORDER.index-last", 2)
 
 
 @prop("C05", "Sharded storage returns what was stored, whatever the order of "
@@ -203,9 +203,10 @@ def c05(repo, col):
     S.shared_mutable_state(repo, col, sh)
     S.empty_minishard_guard(repo, col)
     S.minishard_encode_before_park(repo, col)
-    col.floor("E-PROTO", 15)
-    col.floor("E-ORDER", 15)
-    col.floor("E-ATTR.populated", 6)
+    O.exit_order(repo, col)
+    col.floor("E-PROTO", 7)
+    col.floor("E-ORDER", 7)
+    col.floor("E-ATTR.populated", 3)
 
 
 @prop("C06", "Each pyramid level equals the whole previous level downscaled "
@@ -233,10 +234,12 @@ def c06(repo, col):
     T.octants(repo, col)
     O.pyramid_guards(repo, col)
     O.level_driver(repo, col)
+    D.averaging_accumulator(repo, col)
+    S.downscaler_templates(repo, col)
     A.check_modules(repo, col, ["dyadic_pyramid", "downscaling"])
-    col.floor("E-TILE", 30)
-    col.floor("E-AXIS", 100)
-    col.floor("E-ORDER", 7)
+    col.floor("E-TILE", 15)
+    col.floor("E-AXIS", 50)
+    col.floor("E-ORDER", 3)
 
 
 @prop("C07", "Downscalers compute the documented block statistic exactly",
@@ -259,8 +262,8 @@ def c07(repo, col):
     S.downscaler_templates(repo, col)
     S.optional_zero(repo, col)
     A.check_modules(repo, col, ["downscaling"])
-    col.floor("E-DTYPE", 15)
-    col.floor("E-AXIS", 20)
+    col.floor("E-DTYPE", 7)
+    col.floor("E-AXIS", 10)
 
 
 @prop("C09", "Chunk identifiers and shard routing follow the specification "
@@ -285,8 +288,8 @@ def c09(repo, col):
     SP.morton_loop(repo, col)
     SP.sharded_layout(repo, col, parts=("name",))
     A.check_modules(repo, col, ["sharded_base"])
-    col.floor("E-BOUND", 6)
-    col.floor("E-SPEC", 20)
+    col.floor("E-BOUND", 3)
+    col.floor("E-SPEC", 10)
 
 
 @prop("C10", "Decoders never misbehave on malformed chunk data",
@@ -314,8 +317,8 @@ def c09(repo, col):
 def c10(repo, col):
     X.decoder_scope(repo, col, "chunks")
     X.decoded_shape(repo, col)
-    col.floor("E-EXC.A", 25)
-    col.floor("E-EXC.shape", 3)
+    col.floor("E-EXC.A", 12)
+    col.floor("E-EXC.shape", 2)
 
 
 @prop("C11", "Data-type conversion rounds to nearest and saturates, never "
@@ -336,8 +339,8 @@ def c11(repo, col):
     D.converter_lattice(repo, col)
     S.inplace_ownership(repo, col)
     S.copy_keyword_contract(repo, col)
-    col.floor("E-DTYPE.pair", 50)
-    col.floor("E-OWN", 8)
+    col.floor("E-DTYPE.pair", 25)
+    col.floor("E-OWN", 4)
 
 
 @prop("C12", "File storage returns the latest stored bytes under every "
@@ -360,8 +363,8 @@ def c12(repo, col):
     S.read_config_independence(repo, col)
     SB.accessor_options_plumbing(repo, col)
     A.check_modules(repo, col, ["file_accessor", "http_accessor"])
-    col.floor("E-SIB", 25)
-    col.floor("E-ATTR", 8)
+    col.floor("E-SIB", 12)
+    col.floor("E-ATTR", 4)
 
 
 @prop("C13", "Re-encoding a dataset preserves its voxels exactly for "
@@ -390,8 +393,9 @@ def c13(repo, col):
     S.copy_keyword_contract(repo, col)
     O.flush_chain(repo, col)
     O.minishard_drain(repo, col)
-    col.floor("E-TILE", 12)
-    col.floor("E-ORDER", 15)
+    O.exit_order(repo, col)
+    col.floor("E-TILE", 6)
+    col.floor("E-ORDER", 7)
 
 
 @prop("C14", "Reading over HTTP gives the same bytes as reading the files "
@@ -417,8 +421,8 @@ def c14(repo, col):
     SB.dispatch_agreement(repo, col)
     S.empty_minishard_guard(repo, col)
     A.check_modules(repo, col, ["http_accessor"])
-    col.floor("E-EXC.B", 25)
-    col.floor("E-SIB.dispatch", 10)
+    col.floor("E-EXC.B", 12)
+    col.floor("E-SIB.dispatch", 5)
 
 
 @prop("C15", "Slice stacks are assembled with the requested anatomical "
@@ -447,9 +451,9 @@ def c15(repo, col):
     B.negative_step_slices(repo, col)
     A.check_modules(repo, col, ["scripts.slices_to_precomputed"])
     S.inplace_ownership(repo, col)
-    col.floor("E-TABLE.orientation", 14)
-    col.floor("E-ORIENT", 48)
-    col.floor("E-TILE", 12)
+    col.floor("E-TABLE.orientation", 7)
+    col.floor("E-ORIENT", 24)
+    col.floor("E-TILE", 6)
 
 
 @prop("C16", "Generated metadata and transform place the image correctly in "
@@ -465,8 +469,8 @@ def c15(repo, col):
 def c16(repo, col):
     S.unit_literals(repo, col, UNITS_INFO)
     SP.half_voxel(repo, col)
-    col.floor("E-SPEC.transform", 8)
-    col.floor("E-TABLE.units", 3)
+    col.floor("E-SPEC.transform", 4)
+    col.floor("E-TABLE.units", 2)
 
 
 @prop("C17", "Mesh files follow the formats Neuroglancer reads and survive a "
@@ -487,8 +491,8 @@ def c17(repo, col):
     B.strict_mesh_bound(repo, col)
     S.unit_literals(repo, col, [("scripts.mesh_to_precomputed",
                                  "mesh_file_to_precomputed", "points", 1e6)])
-    col.floor("E-SPEC.mesh", 18)
-    col.floor("E-EXC.A", 8)
+    col.floor("E-SPEC.mesh", 9)
+    col.floor("E-EXC.A", 4)
 
 
 @prop("C18", "I/O failures and interrupted writes never yield silently wrong "
@@ -508,8 +512,8 @@ def c18(repo, col):
     SB.accessor_io_errors(repo, col)
     SB.http_content_after_status(repo, col)
     O.shard_index_last(repo, col)
-    col.floor("E-EXC.B", 30)
-    col.floor("E-ORDER.index-last", 5)
+    col.floor("E-EXC.B", 15)
+    col.floor("E-ORDER.index-last", 2)
 
 
 @prop("C19", "All-in-one conversion equals the step-by-step pipeline and "
@@ -534,8 +538,8 @@ def c19(repo, col):
                if m.short.startswith("scripts.") and m.short != "scripts"]
     S.shared_mutable_state(repo, col, scripts + ["volume_reader",
                                                  "precomputed_io"])
-    col.floor("E-SIB.pipeline", 12)
-    col.floor("E-EXIT", 12)
+    col.floor("E-SIB.pipeline", 6)
+    col.floor("E-EXIT", 6)
 
 
 @prop("C20", "Reported statistics match the dataset that is actually "
@@ -551,5 +555,5 @@ def c20(repo, col):
     T.count_formula(repo, col)
     S.iec_prefixes(repo, col)
     S.shared_mutable_state(repo, col, ["scripts.scale_stats", "utils"])
-    col.floor("E-TILE.stats", 5)
-    col.floor("E-TABLE.iec", 6)
+    col.floor("E-TILE.stats", 2)
+    col.floor("E-TABLE.iec", 3)
